@@ -329,7 +329,7 @@ func slimitPerShard(data []series, q aquery) bool {
 	return false
 }
 
-func compare(got []gseries, exp []xseries, base, unit int64) (bool, string) {
+func compare(got []gseries, exp []xseries, base, unit int64, fuzzy bool) (bool, string) {
 	if len(got) != len(exp) {
 		var hs []string
 		for _, g := range got {
@@ -365,6 +365,9 @@ func compare(got []gseries, exp []xseries, base, unit int64) (bool, string) {
 				return false, fmt.Sprintf("series %d row %d: value %v (%T), want %d/%d", i, j, gr.V, gr.V, er[1], er[2])
 			}
 			want := float64(er[1]) / float64(er[2])
+			if fuzzy && !math.IsNaN(gv) && math.Abs(gv-want) <= meanTol*math.Max(math.Abs(want), 10) {
+				continue
+			}
 			if gv != want || math.IsNaN(gv) {
 				return false, fmt.Sprintf("series %d row %d: value %v, want %v", i, j, gv, want)
 			}
@@ -372,6 +375,11 @@ func compare(got []gseries, exp []xseries, base, unit int64) (bool, string) {
 	}
 	return true, ""
 }
+
+// meanTol: mean() is merged from per-series/per-shard partial means weighted by their counts (FloatMeanReducer:
+// sum += mean*n), so it is not the single division sum/count; it is compared with this relative tolerance (values
+// are |v| <= 9, so 10 is the magnitude floor).  Everything else is compared exactly.
+const meanTol = 1e-12
 
 // epochMarker is the tick the specification uses for "the epoch" (aggregate without a lower time bound).
 const epochMarker = -1000
@@ -501,7 +509,7 @@ func adapter(raw json.RawMessage, env *rt.Env) rt.Result {
 				canonExp(qc.Exp[i].Rows)
 			}
 		}
-		if ok, why := compare(got, qc.Exp, base, unit); !ok {
+		if ok, why := compare(got, qc.Exp, base, unit, qc.Q.Sel == "mean"); !ok {
 			var pats []string
 			if slimitPerShard(c.Data, qc.Q) {
 				pats = append(pats, "slimit_applied_per_shard")
